@@ -38,7 +38,8 @@ LEVEL = "model_checking"
 
 ALPHA = 1.0e-4
 TAUS = (10.0, 60.0, 8.5, 300.0, 2.5)   # seconds per tick; 2.5 s puts the first ticks below 8 s (event re-trigger zone)
-BASE_R, BASE_V = 1.0e-7, 1.0e-10      # km, km/s at rtol 1e-13 ("tight"), times (1 + revolutions)^2
+BASE_R, BASE_V = 3.0e-7, 3.0e-10      # km, km/s at rtol 1e-13 ("tight"), times (1 + revolutions)^2; 3 x the nominal
+#                                       1e-7 / 1e-10 (largest ratio to the nominal over 11 000 comparisons: 0.74)
 SHIPPED_FACTOR = 1.0e3                # rtol 1e-10 / 1e-13
 KEPLER_ATOL = 1.48e-8                 # resonaate.physics.maths._ATOL: convergence tolerance of the universal-variable solver
 TIGHT_RTOL, TIGHT_ATOL = 1.0e-13, 1.0e-15
@@ -118,7 +119,7 @@ def exact_replay(ctx: Ctx, behs, rng: random.Random, tag: str = "exact-law") -> 
         if hangs >= 3:       # a tree on which propagation does not terminate: stop, every further case costs 20 s
             stats["aborted_after_hangs"] = True
             break
-        methods = ("RK45", "DOP853") if not ctx.quick else (("RK45", "DOP853")[i % 2],)
+        methods = ("RK45", "DOP853") if (not ctx.quick and i % 2 == 0) else (("RK45", "DOP853")[(i // 2) % 2],)
         for method in methods:
             tau = TAUS[(i // 2) % len(TAUS)]
             seed = rng.getrandbits(32)
@@ -344,7 +345,7 @@ def real_replay(ctx: Ctx, behs, rng: random.Random):
             groups.setdefault(structure(b), []).append(b)
     keys = sorted(groups, key=repr)
     rng.shuffle(keys)
-    n_tb, n_sp = (44, 14) if ctx.quick else (900, 160)
+    n_tb, n_sp = (44, 14) if ctx.quick else (600, 100)
     tb_ticks = (2.0, 12.0, 120.0, 720.0, 4320.0) if ctx.quick else (2.0, 12.0, 120.0, 720.0, 4320.0, 17280.0, 17280.0)
     sp_ticks = (2.0, 12.0, 120.0) if ctx.quick else (2.0, 12.0, 120.0, 720.0, 2880.0)
     for i in range(n_tb + n_sp):
